@@ -139,6 +139,9 @@ func (ft *FuncTr) anchored(st *State, preCall *State, at *Term, in ssa.Instructi
 		env := ft.newEnv(st)
 		env.pos = in.Pos()
 		env.pre = preCall
+		if l := ft.loopOf[in.Block()]; l != nil && l.head != nil {
+			env.headSt = l.head
+		}
 		var side []*Term
 		env.side = &side
 		t, err := env.trBool(a.C.E)
